@@ -28,6 +28,9 @@ class PLWriter(ModelToText):
         XOR = 'XOR'
         MUX = 'MUX'
 
+        def __str__(self) -> str:
+            return str(self.value)
+
     @staticmethod
     def get_destination_extension() -> str:
         return 'exp'
